@@ -23,3 +23,27 @@ pub assume_specification<T, U, F: FnOnce(T) -> U>[::std::option::Option::<T>::ma
 // Err => T::default(), which is not specified here (sound, weak)
 pub assume_specification<T: ::std::default::Default, E>[::std::result::Result::<T, E>::unwrap_or_default](a: ::std::result::Result<T, E>) -> (r: T)
     ensures a is Ok ==> r == a->Ok_0;
+// ---- more of std's Option / Result combinators (std semantics; closures through call_requires / call_ensures)
+pub assume_specification<T, F: FnOnce(T) -> bool>[::std::option::Option::<T>::is_some_and](o: Option<T>, f: F) -> (r: bool)
+    requires o is Some ==> call_requires(f, (o->0,)),
+    ensures match o { Some(t) => call_ensures(f, (t,), r), None => !r };
+pub assume_specification<T, U, D: FnOnce() -> U, F: FnOnce(T) -> U>[::std::option::Option::<T>::map_or_else](o: Option<T>, d: D, f: F) -> (r: U)
+    requires o is Some ==> call_requires(f, (o->0,)), o is None ==> call_requires(d, ()),
+    ensures match o { Some(t) => call_ensures(f, (t,), r), None => call_ensures(d, (), r) };
+pub assume_specification<T, F: FnOnce() -> Option<T>>[::std::option::Option::<T>::or_else](o: Option<T>, f: F) -> (r: Option<T>)
+    requires o is None ==> call_requires(f, ()),
+    ensures match o { Some(t) => r == Some(t), None => call_ensures(f, (), r) };
+pub assume_specification<T>[::std::option::Option::<T>::xor](a: Option<T>, b: Option<T>) -> (r: Option<T>)
+    ensures r == (match (a, b) { (Some(x), None) => Some(x), (None, Some(y)) => Some(y), _ => None });
+pub assume_specification<T, E, U, F: FnOnce(T) -> ::std::result::Result<U, E>>[::std::result::Result::<T, E>::and_then](a: ::std::result::Result<T, E>, f: F) -> (r: ::std::result::Result<U, E>)
+    requires a is Ok ==> call_requires(f, (a->Ok_0,)),
+    ensures match a { Ok(t) => call_ensures(f, (t,), r), Err(e) => r == ::std::result::Result::<U, E>::Err(e) };
+pub assume_specification<T, E, G, O: FnOnce(E) -> ::std::result::Result<T, G>>[::std::result::Result::<T, E>::or_else](a: ::std::result::Result<T, E>, o: O) -> (r: ::std::result::Result<T, G>)
+    requires a is Err ==> call_requires(o, (a->Err_0,)),
+    ensures match a { Ok(t) => r == ::std::result::Result::<T, G>::Ok(t), Err(e) => call_ensures(o, (e,), r) };
+pub assume_specification<T, E, F: FnOnce(E) -> T>[::std::result::Result::<T, E>::unwrap_or_else](a: ::std::result::Result<T, E>, f: F) -> (r: T)
+    requires a is Err ==> call_requires(f, (a->Err_0,)),
+    ensures match a { Ok(t) => r == t, Err(e) => call_ensures(f, (e,), r) };
+pub assume_specification<T, E, F: FnOnce(T) -> bool>[::std::result::Result::<T, E>::is_ok_and](a: ::std::result::Result<T, E>, f: F) -> (r: bool)
+    requires a is Ok ==> call_requires(f, (a->Ok_0,)),
+    ensures match a { Ok(t) => call_ensures(f, (t,), r), Err(_) => !r };
